@@ -89,7 +89,8 @@ class _Typing:
                             self.vec.add(tg.id)
                         elif k == "vecs":
                             self.vecs.add(tg.id)
-                        ann = X.U(n.annotation) if isinstance(n, ast.AnnAssign) else ""
+                        ann_node = n.annotation if isinstance(n, ast.AnnAssign) else getattr(n, "_ann", None)
+                        ann = X.U(ann_node) if ann_node is not None else ""
                         if any(ann == t for t in COORD_ANN):
                             self.vec.add(tg.id)
                         elif any(ann.startswith(t) for t in COORDS_ANN):
